@@ -16,6 +16,7 @@ import dataclasses
 import itertools
 import random
 import time
+import zlib
 import typing
 
 from . import build, g1, g2, g4, g7, harvest, pysym, ref, runner, units
@@ -232,7 +233,7 @@ def lattice(tier, seed=0):
                 pts.append(CPoint(((s[0], s[1], kind),), entry))
         for a, b in itertools.combinations(avail, 2):
             pts.append(CPoint(((a[0], a[1], "dict"), (b[0], b[1], "dict")), entry))
-            if tier == "thorough" or (a[0] != "option" and hash((a, b)) % 3 == 0):
+            if tier == "thorough" or (a[0] != "option" and zlib.crc32(repr((a, b)).encode()) % 3 == 0):
                 pts.append(CPoint(((a[0], a[1], "ser_only"), (b[0], b[1], "dict")), entry))
                 pts.append(CPoint(((a[0], a[1], "de_only"), (b[0], b[1], "strategy" if b[0] != "option" else "dict")), entry))
                 pts.append(CPoint(((a[0], a[1], "pass" if a[0] != "option" else "dict"), (b[0], b[1], "dict")), entry))
